@@ -38,6 +38,7 @@
 #include <soundswallower/logmath.h>
 #include <soundswallower/ms_gauden.h>
 #include <soundswallower/ms_mgau.h>
+#include <soundswallower/ms_senone.h>
 #include <soundswallower/ptm_mgau.h>
 #include <soundswallower/s2_semi_mgau.h>
 #include <soundswallower/s3file.h>
@@ -633,6 +634,79 @@ static void s3_child(void *arg)
         }
         bin_mdef_free(m);
         s3file_free(s);
+    } else if (n == 4 && !strcmp(w[1], "sen")) {
+        /* senone_mixw_read through senone_init_s3file with one codebook (all-to-one map, no mdef needed) */
+        s3file_t *s;
+        gauden_t g;
+        logmath_t *lm = logmath_init(1.0001, 0, TRUE);
+        senone_t *sn;
+        memset(&g, 0, sizeof(g));
+        g.n_mgau = 1;
+        if ((b = load_src(w[2], w[3], &len)) == NULL) { emit(" bad-src"); return; }
+        s = s3file_init(b, len);
+        sn = senone_init_s3file(&g, s, NULL, 0.0000001, lm, NULL);
+        if (sn) emit(" ok %u %u %u", sn->n_sen, sn->n_feat, sn->n_cw); else emit(" rej");
+        senone_free(sn);
+        s3file_free(s);
+        logmath_free(lm);
+    } else if (n == 15 && !strcmp(w[1], "am")) {
+        /* the assembly: acmod_load_am on files (w[2] = 1) or the in-memory sequence of js/api.js (w[2] = 0) */
+        int ct = atoi(w[2]), k, sd = !strcmp(w[12], "sd"), rv = -1;
+        static const char *names[5] = { "mdef", "transition_matrices", "means", "variances", NULL };
+        unsigned char *fb[5] = { 0 };
+        size_t fl[5] = { 0 };
+        char dir[1024], path[1200];
+        config_t *cfg = config_init(NULL);
+        decoder_t *d;
+        names[4] = sd ? "sendump" : "mixture_weights";
+        for (k = 0; k < 5; k++)
+            if ((fb[k] = load_src(w[4 + 2 * k], w[5 + 2 * k], &fl[k])) == NULL) { emit(" bad-src"); return; }
+        config_set_str(cfg, "loglevel", "ERROR");
+        config_set_str(cfg, "feat", "1s_c_d_dd");
+        if (strchr(w[3], ',')) config_set_str(cfg, "svspec", "0-12/13-25/26-38");
+        d = decoder_create(cfg);
+        if (d == NULL || decoder_init_fe(d) == NULL || decoder_init_feat_s3file(d, NULL) == NULL
+            || decoder_init_acmod_pre(d) == NULL) { emit(" harness-error acmod"); return; }
+        snprintf(dir, sizeof(dir), "%s/am-%d", getenv("VERIF_C17_TMP") ? getenv("VERIF_C17_TMP") : ".", (int)getpid());
+        if (ct) {
+            static const char *keys[5] = { "mdef", "tmat", "mean", "var", NULL };
+            keys[4] = sd ? "sendump" : "mixw";
+            mkdir(dir, 0755);
+            for (k = 0; k < 5; k++) {
+                FILE *o;
+                snprintf(path, sizeof(path), "%s/%s", dir, names[k]);
+                o = fopen(path, "wb");
+                if (!o || fwrite(fb[k], 1, fl[k], o) != fl[k]) { emit(" harness-error write"); return; }
+                fclose(o);
+                config_set_str(d->config, keys[k], path);
+            }
+            rv = acmod_load_am(d->acmod);
+        } else {
+            s3file_t *sm = s3file_init(fb[0], fl[0]), *st, *mn, *vr, *mx;
+            d->acmod->mdef = bin_mdef_read_s3file(sm, 0);
+            s3file_free(sm);
+            if (d->acmod->mdef) {
+                st = s3file_init(fb[1], fl[1]);
+                d->acmod->tmat = tmat_init_s3file(st, d->lmath, config_float(d->config, "tmatfloor"));
+                s3file_free(st);
+                if (d->acmod->tmat) {
+                    mn = s3file_init(fb[2], fl[2]);
+                    vr = s3file_init(fb[3], fl[3]);
+                    mx = s3file_init(fb[4], fl[4]);
+                    rv = js_load_gmm(d, mn, vr, sd ? NULL : mx, sd ? mx : NULL);
+                    s3file_free(mn);
+                    s3file_free(vr);
+                    s3file_free(mx);
+                }
+            }
+        }
+        if (rv < 0) emit(" rej"); else emit(" ok %s", d->acmod->mgau->vt->name);
+        decoder_free(d);
+        if (ct) {
+            for (k = 0; k < 5; k++) { snprintf(path, sizeof(path), "%s/%s", dir, names[k]); unlink(path); }
+            rmdir(dir);
+        }
+        for (k = 0; k < 5; k++) free(fb[k]);
     } else if (n == 6 && !strcmp(w[1], "mixw")) {
         s3file_t *s;
         gauden_t g;
@@ -661,13 +735,13 @@ static void s3_child(void *arg)
 
 static int s3_main(void)
 {
-    char **lines, *w[12], errfile[256];
+    char **lines, *w[20], errfile[256];
     size_t nlines, li;
     snprintf(errfile, sizeof(errfile), "%s/h_c17-s3-%d.err", getenv("VERIF_C17_TMP") ? getenv("VERIF_C17_TMP") : ".", (int)getpid());
     lines = read_all_lines(&nlines);
     for (li = 0; li < nlines; li++) {
         s3case_t c;
-        c.n = vf_words(lines[li], w, 12);
+        c.n = vf_words(lines[li], w, 20);
         c.w = w;
         if (c.n < 2) { printf("bad-op\n"); fflush(stdout); continue; }
         in_child(w[0], errfile, s3_child, &c, 60);
